@@ -271,6 +271,9 @@ func computeLocksets(c *Ctx, scope map[*ssa.Function]bool, perInstance map[strin
 						ls = lockset{}
 					} else if _, isDefer := e.Site.(*ssa.Defer); isDefer {
 						ls = lockset{}
+						if dls, ok := li.deferredClosureEntry(f, e.Callee); ok {
+							ls = dls
+						}
 					} else {
 						at, ok := li.at[e.Site]
 						if !ok {
@@ -281,6 +284,11 @@ func computeLocksets(c *Ctx, scope map[*ssa.Function]bool, perInstance map[strin
 				default: // closure-made (stored, go, defer), dynamic
 					ls = lockset{}
 					if e.Kind == "closure-made" {
+						if dls, ok := li.deferredClosureEntry(f, e.Callee); ok {
+							ls = dls
+						}
+					}
+					if e.Kind == "closure-made" && len(ls) == 0 {
 						// a closure only ever called directly in its parent gets the call sites' locksets
 						if sites := directClosureCalls(f, e.Callee); len(sites) > 0 {
 							first := true
@@ -389,4 +397,61 @@ func isExportedFunc(fn *ssa.Function) bool {
 		}
 	}
 	return true
+}
+
+// deferredClosureEntry: cl is a closure of parent whose only use is `defer cl()`. Deferred calls
+// run in reverse order of registration, so a lock held at the defer statement is still held when
+// the closure runs if it is released only by a `defer Unlock` registered earlier (one that
+// dominates this defer) and never by an explicit Unlock reachable after the defer statement.
+func (li *lockInfo) deferredClosureEntry(parent, cl *ssa.Function) (lockset, bool) {
+	var def *ssa.Defer
+	only := true
+	allInstrs(parent, func(in ssa.Instruction) {
+		mc, ok := in.(*ssa.MakeClosure)
+		if !ok || mc.Fn != ssa.Value(cl) {
+			return
+		}
+		if refs := mc.Referrers(); refs != nil {
+			for _, r := range *refs {
+				if d, isD := r.(*ssa.Defer); isD && d.Call.Value == ssa.Value(mc) {
+					def = d
+				} else {
+					only = false
+				}
+			}
+		}
+	})
+	if def == nil || !only || inCycle(def) {
+		return nil, false
+	}
+	at, ok := li.at[def]
+	if !ok {
+		return nil, false
+	}
+	out := lockset{}
+	after := reach(parent, def, nil, nil)
+	for k := range at {
+		earlierDeferredUnlock, explicitUnlockAfter := false, false
+		allInstrs(parent, func(in ssa.Instruction) {
+			cls, mode, base, op, isLock := lockOp(in)
+			if !isLock || op != "unlock" || cls != k.Class || mode != k.Mode || (base != k.Base && li.perInstance[cls]) {
+				return
+			}
+			if d, isD := in.(*ssa.Defer); isD {
+				if instrDominates(d, def) {
+					earlierDeferredUnlock = true
+				} else {
+					explicitUnlockAfter = true // registered later: runs before the closure
+				}
+				return
+			}
+			if after(in) {
+				explicitUnlockAfter = true
+			}
+		})
+		if earlierDeferredUnlock && !explicitUnlockAfter {
+			out[k] = true
+		}
+	}
+	return out, true
 }
